@@ -124,6 +124,10 @@ class SocketPort(BaseIOPort):
             raise OSError(err.args[1]) from err
 
     def _close(self):
+        # The file objects hold references to the socket, so they must
+        # be closed too for the other end to see the disconnect.
+        self._rfile.close()
+        self._wfile.close()
         self._socket.close()
 
 
